@@ -546,6 +546,8 @@ def reprepare_part(chk, runner, lattices, unsafe, hists):
     groups = {}
     for it in failing:
         kind = (it[3] or it[4])[0].split(" (")[0]
+        if kind.startswith("getIndex("):
+            kind = "getIndex of a query triple"       # the text names the triple: one group for all of them
         groups.setdefault((bool(it[3]), kind), []).append(it)
     for (is_prop, kind), items in sorted(groups.items(), key=lambda kv: (not kv[0][0], kv[0][1])):
         items.sort(key=lambda it: (it[1], len(it[2]), sum(o * s for _, o, s in it[2]), describe(0, it[2])))
